@@ -226,6 +226,139 @@ example : writesByOwner false (init 10)
     [.commit [.put 0 [1]], .claim 0, .readChunks 0, .innerWrite 0, .finalize 0] = true := by
   decide
 
+
+
+-- ================================================================ GetPartIds is two look-ups, not one step
+
+/-- `GetPartIds` with its two look-ups made in different states: the newest entries per part are
+read in `o`, the inner store is listed in `i`. (`getPartIds s = idsSplit s s`.) -/
+def idsSplit (o i : St) : List Nat :=
+  (i.inner.keys ++ (qops o).map POp.id).filter fun id =>
+    match lastFor (qops o) id with
+    | some (.put _ _) => true
+    | some (.del _) => false
+    | none => (i.inner.get id).isSome
+
+/-- **getPartIds_outbox_first_tolerates_flush.** `GetPartIds` reads the outbox table first and the
+inner store afterwards (T1: `reads_consult_outbox_first`). If, in between, a worker replays and
+finalizes the entry it holds, the answer is still exactly the committed parts — in every reachable
+state without a stale mutation. (Read the other way round the flushed entry is in neither view:
+`ids_inner_first_loses_flushed_entry`.) -/
+theorem getPartIds_outbox_first_tolerates_flush (lease : Nat) (steps : List Step)
+    (hs : noStaleWrites false (init lease) steps = true) (w eid : Nat) (op : POp)
+    (hl : (run false (init lease) steps).loc w = .ready eid op)
+    (hq : queued (run false (init lease) steps) eid = true) (id : Nat) :
+    let s := run false (init lease) steps
+    let s2 := (step false (step false s (.innerWrite w)).1 (.finalize w)).1
+    id ∈ idsSplit s s2 ↔ ((committedStore s.committed).get id).isSome := by
+  intro s s2
+  have hinv : Inv s := inv_run false (init lease) steps (inv_init lease) (Or.inr hs)
+  have hl' : s.loc w = .ready eid op := hl
+  have hin : s2.inner = s.inner.apply op := by
+    simp [s2, step, hl', setLoc]
+  -- the held entry's operation is among the queued ones
+  obtain ⟨p, hp, hpe⟩ := (queued_iff s eid).1 hq
+  have hloc := hinv.locOk w
+  rw [hl'] at hloc
+  have hp2 : p.2 = op := hloc.2.2 p hp hpe
+  have hmem : op ∈ qops s := by rw [qops_eq_skel]; exact List.mem_map.2 ⟨p, hp, hp2⟩
+  have hview := hinv.viewOk id
+  simp only [idsSplit, List.mem_filter, List.mem_append]
+  simp only [getPart] at hview
+  cases hlf : lastFor (qops s) id with
+  | some o =>
+    rw [hlf] at hview
+    obtain ⟨hm, hid⟩ := lastFor_mem hlf
+    rw [← hview]
+    cases o with
+    | put k b =>
+      simp only [POp.value, Option.isSome_some, and_true, iff_true]
+      exact Or.inr (List.mem_map.2 ⟨_, hm, hid⟩)
+    | del k => simp [POp.value]
+  | none =>
+    rw [hlf] at hview
+    have hne : op.id ≠ id := by
+      intro he
+      obtain ⟨o, ho⟩ := lastFor_some_of_mem hmem
+      rw [he, hlf] at ho; cases ho
+    have hget : s2.inner.get id = (committedStore s.committed).get id := by
+      rw [hin, Store.get_apply]; simp only [hne, if_false]; simpa using hview
+    simp only
+    rw [hget]
+    constructor
+    · exact fun h => h.2
+    · intro h
+      refine ⟨Or.inl ?_, h⟩
+      apply Store.mem_keys_of_get
+      rw [hget]; exact h
+
+/-- The look-ups in the other order — inner store first, outbox table after the flush — lose the
+flushed entry: a committed part is missing from the listing. -/
+theorem ids_inner_first_loses_flushed_entry :
+    let s := run false (init 10) [.commit [.put 0 [1]], .claim 0, .readChunks 0]
+    let s2 := (step false (step false s (.innerWrite 0)).1 (.finalize 0)).1
+    0 ∈ idsSplit s s2 ∧ idsSplit s2 s = [] ∧ (committedStore s.committed).get 0 = some [1] := by
+  decide
+
+-- ================================================================ the lease: heartbeats keep the claim
+
+/-- **extend_renews_lease.** A heartbeat of the worker that owns the first entry moves the end of
+its lease to `now + lease` (and nothing else about who owns it). -/
+theorem extend_renews_lease (f : Bool) (s : St) (w : Nat) (h : Entry) (t : List Entry)
+    (hq : s.queue = h :: t) (ho : h.owner = some (me s w))
+    (hl : (∃ id, s.loc w = .claimed h.eid id) ∨ (∃ op, s.loc w = .ready h.eid op)) :
+    (step f s (.extend w)).2 = .extended true ∧
+    ((step f s (.extend w)).1.queue.head?).map (fun e => (e.eid, e.owner, e.until_)) =
+      some (h.eid, some (me s w), s.now + s.lease) ∧
+    (step f s (.extend w)).1.now = s.now ∧ (step f s (.extend w)).1.lease = s.lease := by
+  rcases hl with ⟨id, hl⟩ | ⟨op, hl⟩ <;>
+    simp [step, hl, hq, updOwned, ownedBy, ho]
+
+/-- **live_lease_excludes_others.** While the first entry is held under a lease that has not run
+out (`now < until`), a claim attempt — by anyone — changes nothing: the worker does not skip ahead
+either (head-of-line), it simply gets nothing. -/
+theorem live_lease_excludes_others (f : Bool) (s : St) (w' : Nat) (h : Entry) (t : List Entry)
+    (hq : s.queue = h :: t) (ho : h.owner ≠ none) (hlive : s.now < h.until_) :
+    (step f s (.claim w')).1 = s ∧ (step f s (.claim w')).2 ≠ .claimed h.eid (h.version + 1) := by
+  have hc : ¬ (h.owner = none ∨ h.until_ ≤ s.now) := by
+    intro hh; rcases hh with h1 | h2
+    · exact ho h1
+    · omega
+  cases hl : s.loc w' <;> simp [step, hl, hq, hc]
+
+/-- **heartbeat_keeps_claim.** After a heartbeat of the owner, for less than a lease duration no
+other worker can take the entry over. (This is what makes "no lease expires while its holder keeps
+heartbeating" — and with it `writesByOwner`, the hypothesis of the partial theorems — attainable.) -/
+theorem heartbeat_keeps_claim (f : Bool) (s : St) (w w' : Nat) (h : Entry) (t : List Entry) (d : Nat)
+    (hq : s.queue = h :: t) (ho : h.owner = some (me s w))
+    (hl : (∃ id, s.loc w = .claimed h.eid id) ∨ (∃ op, s.loc w = .ready h.eid op))
+    (hd : d < s.lease) :
+    let s1 := (step f s (.extend w)).1
+    let s2 := (step f s1 (.tick d)).1
+    (step f s2 (.claim w')).1 = s2 := by
+  intro s1 s2
+  obtain ⟨_, hhead, hnow, hlease⟩ := extend_renews_lease f s w h t hq ho hl
+  have hq1 : ∃ h1 t1, s1.queue = h1 :: t1 ∧ h1.owner = some (me s w) ∧ h1.until_ = s.now + s.lease := by
+    cases hq1 : s1.queue with
+    | nil => simp [s1, hq1] at hhead
+    | cons h1 t1 =>
+      simp only [s1, hq1, List.head?_cons, Option.map_some, Option.some.injEq, Prod.mk.injEq] at hhead
+      exact ⟨h1, t1, rfl, hhead.2.1, hhead.2.2⟩
+  obtain ⟨h1, t1, hq1, ho1, hu1⟩ := hq1
+  have hq2 : s2.queue = h1 :: t1 := by simp [s2, step, hq1]
+  have hn2 : s2.now = s.now + d := by
+    have : s2.now = s1.now + d := by simp [s2, step]
+    rw [this]; show (step f s (.extend w)).1.now + d = s.now + d; rw [hnow]
+  exact (live_lease_excludes_others f s2 w' h1 t1 hq2 (by rw [ho1]; simp) (by rw [hn2, hu1]; omega)).1
+
+/-- A heartbeat that sets the end of the lease to `now` instead (the two time arguments swapped)
+gives the claim away at once: shown on the as-is model by replacing the heartbeat by the expiry of
+the lease — the other worker takes the entry over while the first is still replaying it. -/
+example :
+    (outs false (init 10) [.commit [.put 0 [1]], .claim 0, .readChunks 0, .extend 0, .tick 3, .claim 1]).getLast? = some .claimBusy ∧
+    (outs false (init 10) [.commit [.put 0 [1]], .claim 0, .readChunks 0, .leaseExpire, .claim 1]).getLast? = some (.claimed 0 2) := by
+  decide
+
 -- ================================================================ T1: step granularity
 
 open Pithos.Gen.OutboxPart in
@@ -276,6 +409,32 @@ theorem sql_guards :
     sqlFinalizeWhere = "id = $1 AND outbox_id = $2 AND claim_owner = $3" ∧
     sqlReleaseWhere = "id = $2 AND outbox_id = $3 AND claim_owner = $4" ∧
     sqlExtendWhere = "id = $3 AND outbox_id = $4 AND claim_owner = $5" := by
+  decide
+
+open Pithos.Gen.OutboxPart in
+/-- Data flow of the lease statements: which Go argument reaches which column. `claim_until` is
+written from `claimUntil`, compared with `now`; `updated_at` is `now`; the row is addressed by
+id, outbox id and (finalize / release / extend) the claim owner. A swap of `now` and `claimUntil`
+changes no statement text — it changes this table. -/
+theorem sql_bindings :
+    bindClaim = [("set:claim_owner", "owner"), ("set:claim_until", "claimUntil"), ("set:updated_at", "now"),
+                 ("where:id=", "entry.Id.String()"), ("where:outbox_id=", "outboxId"), ("where:version=", "entry.Version"),
+                 ("where:claim_until<=", "now")] ∧
+    bindFinalize = [("where:id=", "id.String()"), ("where:outbox_id=", "outboxId"), ("where:claim_owner=", "owner")] ∧
+    bindRelease = [("set:updated_at", "now"), ("where:id=", "id.String()"), ("where:outbox_id=", "outboxId"),
+                   ("where:claim_owner=", "owner")] ∧
+    bindExtend = [("set:claim_until", "claimUntil"), ("set:updated_at", "now"), ("where:id=", "id.String()"),
+                  ("where:outbox_id=", "outboxId"), ("where:claim_owner=", "owner")] := by
+  decide
+
+open Pithos.Gen.OutboxPart in
+/-- … and outbox.go hands the repository `now` and `now + lease` in the repository's parameter order. -/
+theorem lease_times_passed_in_order :
+    sigClaim = ["ctx", "tx", "outboxId", "owner", "now", "claimUntil"] ∧
+    callClaimArgs = ["ctx", "tx.SqlTx()", "obs.outboxId", "obs.claimOwner", "now", "now.Add(obs.claimLeaseDuration)"] ∧
+    sigExtend = ["ctx", "tx", "outboxId", "id", "owner", "now", "claimUntil"] ∧
+    callExtendArgs = ["ctx", "tx.SqlTx()", "obs.outboxId", "*entry.Id", "obs.claimOwner", "now",
+                      "now.Add(obs.claimLeaseDuration)"] := by
   decide
 
 end Pithos.C18
